@@ -111,7 +111,11 @@ InsertPt(s, p) == IF s = <<>> THEN <<p>>
 RECURSIVE SortPts(_)
 SortPts(s) == IF s = <<>> THEN <<>> ELSE InsertPt(SortPts(SubSeq(s, 1, Len(s) - 1)), s[Len(s)])
 
-GKey(k, v) == IF k.by = "all" THEN 0 ELSE v.c.a
+\* the group key: GroupBy() one group; GroupBy("a") the value of context.a; GroupBy(("a", "count")) the selected
+\* part of the context - equal dictionaries are one group whatever the order their keys were inserted in
+GKey(k, v) == CASE k.by = "all" -> 0
+                [] k.by = "ac" -> [x \in (DOMAIN v.c) \cap {"a", "count"} |-> v.c[x]]
+                [] OTHER -> v.c.a
 
 (***************************************************************************)
 (* Value domains of the bounded model.                                     *)
@@ -147,7 +151,7 @@ ValsOf(k) ==
     [] k.t = "Hist" -> IF Wide THEN HistValsMore ELSE HistVals
     [] k.t = "Hist2" -> Hist2Vals
     [] k.t = "Graph" -> GraphVals
-    [] k.t = "GroupBy" -> IF k.by = "a" THEN HasA(IF Wide THEN NumValsMore ELSE NumVals)
+    [] k.t = "GroupBy" -> IF k.by \in {"a", "ac"} THEN HasA(IF Wide THEN NumValsMore ELSE NumVals)
                           ELSE (IF Wide THEN NumValsMore ELSE NumVals)
     [] OTHER -> IF Wide THEN NumValsMore ELSE NumVals
 
@@ -159,6 +163,11 @@ ValsOf(k) ==
 CountO(name, start, opt) == [t |-> "Count", name |-> name, start |-> start, opt |-> opt]
 Count0 == CountO("count", 0, "")
 Count2 == CountO("n2", 2, "")
+\* names with a dot (the documented key is {name: count}, a flat key), also when the part before the dot is a key
+\* of the context (a dictionary "n" in CN, a number "count" in CB); a name that is a key of the context
+CountDot == CountO("n.b", 0, "")
+CountDot2 == CountO("count.sel", 2, "")
+CountA == CountO("a", 0, "")
 SumO(start, opt) == [t |-> "Sum", start |-> start, opt |-> opt]
 Sum0 == SumO(0, "")
 Sum5 == SumO(5, "")
@@ -208,7 +217,7 @@ AllKinds == {Count0, Count2, Sum0, Sum5, DSumK,
              VecW(<<Sum0, Sum0>>, "dim", "tuple", "num2", "wrap"),
              VecOf(<<Store(FALSE), Sum0>>, "list", "add", "num2"),
              GroupByO("a", "dep"), StoreO(FALSE, "odd"), CountO("count", 0, "odd"),
-             Store(TRUE), Store(FALSE), GroupByK("all"), GroupByK("a"),
+             Store(TRUE), Store(FALSE), GroupByK("all"), GroupByK("a"), GroupByK("ac"), CountDot, CountDot2,
              Hist("plain"), Hist("bins"), Hist("make"), Hist("iv"), Hist2,
              GraphK(None, TRUE), GraphK(None, FALSE), GraphK(2, TRUE)}
 
@@ -220,7 +229,7 @@ MoreKinds == {VecOf(<<Sum0, Store(FALSE)>>, "list", "tuple", "num2"),
               VecOf(<<MeanK("py", TRUE), MeanK("py", TRUE), MeanK("py", TRUE)>>, "dim", "tuple", "num3"),
               MeanK("Sum", TRUE), MeanK("Sum2", FALSE), VMCg(FALSE, TRUE, TRUE),
               MeanO("py", FALSE, "half"), VMCo(TRUE, FALSE, FALSE, "half"), MeanK("Count", TRUE),
-              GroupByO("a", "odd"), GroupByO("all", "dep"), StoreO(TRUE, "odd"),
+              GroupByO("a", "odd"), GroupByO("all", "dep"), StoreO(TRUE, "odd"), CountA, GroupByO("ac", "dep"),
               VecW(<<MeanK("py", TRUE), Store(FALSE)>>, "list", "tuple", "num2", "wrap"),
               VecOf(<<Sum0, Sum0>>, "dim", "add", "num2"),
               GraphI(2, FALSE, <<<<1, 7>>, <<0, 3>>>>, CS)}
